@@ -43,8 +43,9 @@ _COMMON_ASSUMPTIONS = [
 PROPS = {
     "C01": {
         "level": "proof",
-        "lean_modules": ["Astria.Ledger.Model", "Astria.Ledger.Conservation", "Astria.Ledger.Theorems", "Astria.Properties.C01"],
-        "theorems": ["Astria.C01_tx_conserves", "Astria.C01_failed_tx_conserves", "Astria.C01_recv_mints_exactly",
+        "lean_modules": ["Astria.Ledger.Model", "Astria.Ledger.Conservation", "Astria.Ledger.Theorems", "Astria.Ledger.Escrow",
+                         "Astria.Ledger.History", "Astria.Properties.C01"],
+        "theorems": ["Astria.C01_history_conserves", "Astria.C01_tx_conserves", "Astria.C01_failed_tx_conserves", "Astria.C01_recv_mints_exactly",
                      "Astria.C01_refund_mints_exactly", "Astria.C01_fee_exact", "Astria.C01_end_block_routes_fees",
                      "Astria.C01_original_counterexample"],
         "harnesses": ["ledger"],
@@ -55,7 +56,7 @@ PROPS = {
         "trusted_base": _TRUSTED,
         "assumptions": _COMMON_ASSUMPTIONS,
         "explanation": "theorems: per-effect signed delta of (balances + escrow + block fees), lifted to actions, transactions, "
-                       "packets and block end for all inputs; fee plan = exactly base+mult*size debited from the signer; "
+                       "packets and block end for all inputs, and by induction to every history (C01_history_conserves); fee plan = exactly base+mult*size debited from the signer; "
                        "monitors recompute totals and fees from the implementation's own dumps and events",
     },
     "C03": {
